@@ -64,7 +64,9 @@ type Fault struct {
 	// "closed" = io.ErrClosedPipe, "with_data" = a custom error returned together
 	// with the last bytes before it (n > 0 and err != nil in one Read), "reset" /
 	// "epipe" = a *net.OpError wrapping ECONNRESET / EPIPE, "canceled" = an error
-	// wrapping context.Canceled although the query's own context is alive.
+	// wrapping context.Canceled although the query's own context is alive,
+	// "wraps_unexpected_eof" / "wraps_eof" = an error that wraps an EOF sentinel
+	// (by package io's contract that is a failure, not an end of input).
 	ErrKind string `json:"err_kind,omitempty"`
 }
 
